@@ -8,6 +8,8 @@ import TinsModel.Tcp.LemmasChunks
 -/
 namespace Tins.DT
 
+variable {tie : Bool}
+
 def slice (s : Bytes) (a n : Nat) : Bytes := (s.drop a).take n
 
 /-- chunk `c` holds position `p` -/
@@ -40,7 +42,7 @@ def mu (t : ATracker) : Nat := 2 * t.buf.length + (if t.k ∈ keys t.buf then 0 
 
 /-! ### `astore` -/
 
-theorem mem_astore {b : Chunks} {a : Nat} {d : Bytes} {c : Nat × Bytes} (h : c ∈ astore b a d) :
+theorem mem_astore {b : Chunks} {a : Nat} {d : Bytes} {c : Nat × Bytes} (h : c ∈ astore tie b a d) :
     c ∈ b ∨ c = (a, d) := by
   unfold astore at h
   split at h
@@ -53,7 +55,7 @@ theorem mem_astore {b : Chunks} {a : Nat} {d : Bytes} {c : Nat × Bytes} (h : c 
       · exact Or.inl h.1
     · exact Or.inl h
 
-theorem nodup_astore {b : Chunks} (hn : (keys b).Nodup) (a : Nat) (d : Bytes) : (keys (astore b a d)).Nodup := by
+theorem nodup_astore {b : Chunks} (hn : (keys b).Nodup) (a : Nat) (d : Bytes) : (keys (astore tie b a d)).Nodup := by
   unfold astore
   split
   · exact nodup_put hn _ _
@@ -61,7 +63,7 @@ theorem nodup_astore {b : Chunks} (hn : (keys b).Nodup) (a : Nat) (d : Bytes) : 
     · exact nodup_put hn _ _
     · exact hn
 
-theorem mem_keys_astore {b : Chunks} {a x : Nat} {d : Bytes} : x ∈ keys (astore b a d) ↔ x = a ∨ x ∈ keys b := by
+theorem mem_keys_astore {b : Chunks} {a x : Nat} {d : Bytes} : x ∈ keys (astore tie b a d) ↔ x = a ∨ x ∈ keys b := by
   unfold astore
   split
   · exact mem_keys_put
@@ -75,7 +77,7 @@ theorem mem_keys_astore {b : Chunks} {a x : Nat} {d : Bytes} : x ∈ keys (astor
         · exact h
 
 theorem astore_covers_old {b : Chunks} (hn : (keys b).Nodup) (a : Nat) (d : Bytes) {c : Nat × Bytes} {p : Nat}
-    (hc : c ∈ b) (hp : Covers c p) : ∃ c' ∈ astore b a d, c'.1 = c.1 ∧ Covers c' p := by
+    (hc : c ∈ b) (hp : Covers c p) : ∃ c' ∈ astore tie b a d, c'.1 = c.1 ∧ Covers c' p := by
   unfold astore
   split
   · next hl =>
@@ -84,6 +86,8 @@ theorem astore_covers_old {b : Chunks} (hn : (keys b).Nodup) (a : Nat) (d : Byte
   · next old hl =>
     split
     · next hlt =>
+      have hlt : old.length ≤ d.length := by
+        simp only [Bool.or_eq_true, decide_eq_true_eq, Bool.and_eq_true, beq_iff_eq] at hlt; omega
       by_cases e : c.1 = a
       · have h1 : lookup b c.1 = some c.2 := lookup_of_mem hn hc
         rw [e, hl] at h1
@@ -96,7 +100,7 @@ theorem astore_covers_old {b : Chunks} (hn : (keys b).Nodup) (a : Nat) (d : Byte
     · exact ⟨c, hc, rfl, hp⟩
 
 theorem astore_covers_new (b : Chunks) {a : Nat} {d : Bytes} {p : Nat}
-    (hp : Covers (a, d) p) : ∃ c' ∈ astore b a d, c'.1 = a ∧ Covers c' p := by
+    (hp : Covers (a, d) p) : ∃ c' ∈ astore tie b a d, c'.1 = a ∧ Covers c' p := by
   unfold astore
   split
   · exact ⟨(a, d), mem_put.mpr (Or.inl rfl), rfl, hp⟩
@@ -104,6 +108,8 @@ theorem astore_covers_new (b : Chunks) {a : Nat} {d : Bytes} {p : Nat}
     split
     · exact ⟨(a, d), mem_put.mpr (Or.inl rfl), rfl, hp⟩
     · next hge =>
+      have hge : d.length ≤ old.length := by
+        simp only [Bool.or_eq_true, decide_eq_true_eq, Bool.and_eq_true, beq_iff_eq, not_or] at hge; omega
       refine ⟨(a, old), lookup_some_mem hl, rfl, ?_⟩
       unfold Covers at hp ⊢
       simp only at hp ⊢; omega
@@ -140,7 +146,7 @@ theorem length_put {m : Chunks} (hn : (keys m).Nodup) (k : Nat) (d : Bytes) :
   · next h => rw [sumSizes_erase_of_not_mem h]
 
 theorem length_astore {b : Chunks} (hn : (keys b).Nodup) (a : Nat) (d : Bytes) :
-    (astore b a d).length = b.length + (if a ∈ keys b then 0 else 1) := by
+    (astore tie b a d).length = b.length + (if a ∈ keys b then 0 else 1) := by
   unfold astore
   split
   · exact length_put hn a d
@@ -166,7 +172,7 @@ theorem take_append_slice (s : Bytes) (k n : Nat) : s.take k ++ slice s k n = s.
 
 theorem DInv_slice {s : Bytes} {cov : Nat → Prop} {t : ATracker} (h : DInv s cov t) {a : Nat} {chunk : Bytes}
     (hl : lookup t.buf a = some chunk) (ha : a < t.k) (he : t.k < a + chunk.length) :
-    DInv s cov { t with buf := erase (astore t.buf t.k (chunk.drop (t.k - a))) a } := by
+    DInv s cov { t with buf := erase (astore tie t.buf t.k (chunk.drop (t.k - a))) a } := by
   have hmem := lookup_some_mem hl
   have hok := h.chunks _ hmem
   have hlen : (chunk.drop (t.k - a)).length = a + chunk.length - t.k := by rw [List.length_drop]; omega
